@@ -6,7 +6,7 @@ ASSUMPTIONS = ["inductive step: the pre-state is ANY triple of arrays satisfying
 OUTSIDE = ["the inductive step for n >= 4 (no verdict within 30 minutes)", "symbol counts above the stated n (the 314-symbol tree of the format runs the same functions; n is a constructor argument)", "counter values are full 16-bit, so long histories are covered by the induction, not by running them"]
 LEVEL_TEXT = ("Bounded model checking as a one-step induction: from every valid tree of n symbols (all counts, all shapes) one update with any symbol yields a valid tree identical to an independent reference update; "
               "hence every history within capacity is covered for that n. Encoder/decoder agreement and refusals are decided on the same arbitrary trees.")
-LEVEL_NOTE = "inductive step: n = 2 in the quick tier, n = 2 and 3 thorough (n = 3 takes 17 minutes of SAT time, n = 4 gave no verdict in 30 minutes and is not run); encoder/decoder and refusal queries n = 2..4; update sequences from the constructor tree up to n = 4."
+LEVEL_NOTE = "inductive step: n = 2 in the quick tier, n = 2 and 3 thorough (n = 3 takes 17 minutes of SAT time, n = 4 gave no verdict in 30 minutes and is not run); encoder/decoder and refusal queries n = 2..4; update sequences from the constructor tree: (n,k) = (2,4) (3,3) (4,3) quick, (2,5) (3,4) (4,3) thorough."
 
 
 def queries(tier):
@@ -26,7 +26,11 @@ def queries(tier):
     for r, rn in enumerate(["update at root count 65535", "out-of-range symbol in UpdateCodeCount", "out-of-range symbol in GetEncodedBitString", "out-of-range node in GetChildNode/IsLeaf/GetNodeData"]):
         qs.append(Query("refuse_%d_n%d" % (r, n), "C15_huffman.cpp", "h_refuse", {"NSYM": n, "REFUSE": r}, unwind=4 * n + 8, timeout=900,
                         desc="%s on an arbitrary valid tree of %d symbols: refused with an error, tree unchanged" % (rn, n)))
-    for n, k in ((2, 4), (3, 3), (4, 3)) if tier == "quick" else ((2, 6), (3, 5), (4, 4)):
+    import os
+    seqs = ((2, 4), (3, 3), (4, 3)) if tier == "quick" else ((2, 5), (3, 4), (4, 3))   # measured (cadical): 136/204 s, 256/333 s, 460 s; (2,6) (3,5) (4,4) gave no verdict in 30 min with minisat
+    if os.environ.get("VF_C15_SEQ"): seqs = [tuple(int(x) for x in p.split(":")) for p in os.environ["VF_C15_SEQ"].split(",")]
+    for n, k in seqs:
         qs.append(Query("sequence_n%d_k%d" % (n, k), "C15_huffman.cpp", "h_sequence", {"NSYM": n, "KSEQ": k}, unwind=8 * n + 20, timeout=1800,
+                        cbmc_opts=["--sat-solver", "cadical"],
                         desc="all sequences of %d symbolic updates from the constructor's %d-symbol tree keep the invariant" % (k, n)))
     return qs
